@@ -1154,7 +1154,7 @@ class Arithmetic(Expr):
         # check for single ASCII characters
         if self.expr.startswith('\'') and self.expr.endswith('\''):
             c = self.expr[1:-1]
-            c = c.encode('utf-8').decode('unicode_escape')
+            c = c.encode('latin-1', 'backslashreplace').decode('unicode_escape')
             try:
                 return ord(c)
             except TypeError:
@@ -2165,7 +2165,7 @@ def lex_tokens(line):
     match = RE_ERROR.match(line.contents)
     if match is not None:
         message = match.group(1)
-        message = message.encode('utf-8').decode('unicode_escape')
+        message = message.encode('latin-1', 'backslashreplace').decode('unicode_escape')
         tokens = ['error', message]
         return LineTokens(line, tokens)
 
@@ -2173,7 +2173,7 @@ def lex_tokens(line):
     match = RE_STRING.match(line.contents)
     if match is not None:
         value = match.group(1)
-        value = value.encode('utf-8').decode('unicode_escape')
+        value = value.encode('latin-1', 'backslashreplace').decode('unicode_escape')
         tokens = ['string', value]
         return LineTokens(line, tokens)
 
@@ -2181,7 +2181,7 @@ def lex_tokens(line):
     # (the character might be a '#', ',', '(' or ')' which would otherwise be eaten below)
     def char_value(match):
         try:
-            return str(ord(match.group(1).encode('utf-8').decode('unicode_escape')))
+            return str(ord(match.group(1).encode('latin-1', 'backslashreplace').decode('unicode_escape')))
         except (TypeError, ValueError):
             return match.group(0)
     contents = re.sub(r"'(\\.|[^\\])'", char_value, line.contents)
